@@ -4,7 +4,7 @@
    written from MS-RDPBCGR 2.2.9.1.1.3.1.2.4 / 3.1.9 and MS-RDPEGDI 3.1.9.2 (flat per-pixel
    semantics, every legal header form, planar segments, delta rows, nearest-integer widening). *)
 From RdpV Require Import Base Buf Rle16 Rle32 Bitmap RefRle CodecLemmas CodecContent C08_proofs C09_proofs
-     Planar_proofs Rle16_sem_proofs C09_rle16.
+     Planar_proofs Rle16_sem_proofs RefRleLit RefRleLit_proofs C09_rle16.
 
 (* The widening computed by rgb565torgb32 (the model's u16 expressions ((c*527+23)>>6 etc.,
    [model_widen]) is, for EVERY 16-bit value, the nearest integer to c*255/31 (c*255/63 for
@@ -46,37 +46,66 @@ Theorem C09_planar :
 Proof. exact planar_exact. Qed.
 Print Assumptions C09_planar.
 
-(* Interleaved RLE, PARTIAL: for every image (rows top-down), every order list os built from
-   background runs (including the foreground-insertion rule between consecutive background runs),
-   foreground runs, SET-foreground runs, colour runs, colour images, white and black, whose flat
+(* Interleaved RLE at 16 bpp, FULL: for every image (rows top-down), EVERY order list os of the grammar
+   -- any mix of all twelve order kinds: background runs (with the foreground-insertion rule between
+   consecutive background runs and its first-line exception), foreground runs, SET-foreground runs,
+   FGBG images and SET-FGBG images (any mask bytes, any length, runs spanning scan lines), colour runs,
+   colour images, dithered runs, the special codes F9 / FA, white and black -- whose flat per-pixel
    semantics is the bottom-up image, and EVERY legal serialisation bs of it (short, extended and
-   mega-mega headers in any mix), decompression returns exactly the image, widened, top-down.
-   MISSING from the proved grammar (covered by the correspondence run and the kernel-evaluated
-   example only): FGBG image (OFgBg), SET-FGBG image (OSetFgBg), dithered run (ODither) and the
-   two special FGBG codes F9 / FA (OSpecial1, OSpecial2). *)
-Theorem C09_rle16_partial :
+   mega-mega headers in any mix, `serialises`), decompression returns exactly the image, widened,
+   rows top-down, in both build profiles.  No hypothesis on the orders beyond the grammar itself. *)
+Theorem C09_rle16 :
   forall (p : prof) (w h : N) (rows : list (list N)) (os : list order) (bs : bytes),
     w < 65536 -> h < 65536 -> 0 < w ->
     length rows = N.to_nat h -> uniform (N.to_nat w) rows ->
-    Forall (fun o => supported o = true) os -> serialises os bs -> sem w os = concat (rev rows) ->
+    serialises os bs -> sem w os = concat (rev rows) ->
     decompress p w h 16 true bs = ([4 * (w * h); 4 * (w * h)], Ok (bgra16 (concat rows))).
 Proof. exact rle16_exact. Qed.
-Print Assumptions C09_rle16_partial.
+Print Assumptions C09_rle16.
 
-(* Non-vacuity (1): every image of 16-bit pixels has an encoding in the proved grammar: one
-   colour-image order per scan line serialises and means exactly the rows. *)
+(* The two readings of the standard.  coq/RefRleLit.v transcribes the MS-RDPBCGR 3.1.9 pseudo-code
+   LITERALLY: fFirstLine is tested once per order (and cleared, together with fInsertFgPel, when the
+   destination has reached one scan line) and then frozen for all pixels of the order.  On every
+   serialisable order list none of whose orders begins before and ends after the end of the first
+   scan line, that reading and the per-pixel reading `sem` of RefRle.v describe the same pixels. *)
+Theorem C09_literal_reading_agrees :
+  forall (w : N) (os : list order) (bs : bytes),
+    0 < w -> serialises os bs -> no_straddle w os = true -> lit_sem w os = sem w os.
+Proof. exact lit_sem_agrees. Qed.
+Print Assumptions C09_literal_reading_agrees.
+
+(* Hence C09_rle16 also holds with the literal reading as the specification, for such streams. *)
+Theorem C09_rle16_literal :
+  forall (p : prof) (w h : N) (rows : list (list N)) (os : list order) (bs : bytes),
+    w < 65536 -> h < 65536 -> 0 < w ->
+    length rows = N.to_nat h -> uniform (N.to_nat w) rows ->
+    serialises os bs -> no_straddle w os = true -> lit_sem w os = concat (rev rows) ->
+    decompress p w h 16 true bs = ([4 * (w * h); 4 * (w * h)], Ok (bgra16 (concat rows))).
+Proof. exact rle16_exact_literal. Qed.
+Print Assumptions C09_rle16_literal.
+
+(* The side condition is needed: a 3-pixel foreground run on a 2-pixel-wide image (one byte, 0x23)
+   straddles the first line; the literal reading gives white white white, the per-pixel reading
+   (which C09_rle16 proves the decoder implements) gives white white black. *)
+Theorem C09_literal_reading_differs_when_straddling :
+  ser FShort (OFg 3) = Some [35] /\ no_straddle 2 [OFg 3] = false /\
+  lit_sem 2 [OFg 3] = [65535; 65535; 65535] /\ sem 2 [OFg 3] = [65535; 65535; 0].
+Proof. exact lit_sem_differs. Qed.
+Print Assumptions C09_literal_reading_differs_when_straddling.
+
+(* Non-vacuity (1): every image of 16-bit pixels has an encoding: one colour-image order per scan
+   line serialises and means exactly the rows. *)
 Theorem C09_nonvacuous :
   forall (w : N) (rws : list (list N)),
     0 < w -> w < 65536 -> uniform (N.to_nat w) rws -> Forall (fun r => Forall (fun v => v < 65536) r) rws ->
-    exists bs, serialises (map OImage rws) bs /\ Forall (fun o => supported o = true) (map OImage rws) /\
-               sem w (map OImage rws) = concat rws.
+    exists bs, serialises (map OImage rws) bs /\ sem w (map OImage rws) = concat rws.
 Proof. exact trivial_encoding. Qed.
 Print Assumptions C09_nonvacuous.
 
-(* Non-vacuity (2): a 4 x 10 stream using ALL twelve order kinds (incl. the five outside the
-   proved grammar), the three header forms and two consecutive background runs serialises to the
-   given bytes, and the decoder model returns exactly bgra16 of its flat semantics flipped to
-   top-down, in both build profiles (kernel evaluation). *)
+(* Non-vacuity (2): a 4 x 10 stream using ALL twelve order kinds, the three header forms and two
+   consecutive background runs serialises to the given bytes (evaluation of the spec), and the decoder
+   model returns exactly bgra16 of its flat semantics flipped to top-down, in both build profiles --
+   proved as an INSTANCE of C09_rle16 (not by evaluating the decoder). *)
 Theorem C09_example_all_orders :
   ser_all ex_orders = Some ex_stream /\ nlen (sem 4 (map snd ex_orders)) = 40 /\
   snd (decompress Debug 4 10 16 true ex_stream) = Ok (bgra16 (flip_rows 4 10 (sem 4 (map snd ex_orders)))) /\
